@@ -210,12 +210,6 @@ end GenP
 
 namespace GenS
 
-theorem from_str_eq (W P N : Nat) (s : String) : from_str W P N s = some (PodStr.ofStr N s) := by
-  unfold from_str PodStr.ofStr PodStr.ofBytes
-  have h1 : ¬ s.utf8ByteSize < min s.utf8ByteSize N := by omega
-  have h2 : ¬ N < min s.utf8ByteSize N := by omega
-  simp [zerosBA_size, ByteArray.size_extract, String.size_toByteArray, zerosBA_extract, h1, h2]
-
 theorem copy_from_slice_eq (W P N : Nat) (v : ByteArray) (hv : v.size = N) (src : ByteArray) :
     copy_from_slice W P N v src = some (PodStr.ofBytes N src) := by
   unfold copy_from_slice PodStr.ofBytes
@@ -232,6 +226,18 @@ theorem copy_from_str_eq (W P N : Nat) (v : ByteArray) (hv : v.size = N) (s : St
   unfold copy_from_str
   simp only []
   rw [copy_from_slice_eq W P N v hv]; rfl
+
+/-- `From<&str>`: written out (copy what fits into a zero array) or as `Self::default()` followed by `copy_from_str`. -/
+theorem from_str_eq (W P N : Nat) (s : String) : from_str W P N s = some (PodStr.ofStr N s) := by
+  first
+  | (unfold from_str PodStr.ofStr PodStr.ofBytes
+     have h1 : ¬ s.utf8ByteSize < min s.utf8ByteSize N := by omega
+     have h2 : ¬ N < min s.utf8ByteSize N := by omega
+     simp [zerosBA_size, ByteArray.size_extract, String.size_toByteArray, zerosBA_extract, h1, h2]
+     done)
+  | (unfold from_str
+     simp only [default_value, bind, Option.bind, pure]
+     rw [copy_from_str_eq W P N (zerosBA N) (zerosBA_size N) s])
 
 theorem as_str_eq (W P N : Nat) (v : ByteArray) (hv : v.size = N) :
     as_str W P N v = some (PodStr.asStr v) := by
